@@ -4,6 +4,7 @@ import TantivyModel.Proofs.Store.SkipIndex
 import TantivyModel.Proofs.Store.Writer
 import TantivyModel.Proofs.Store.Merge
 import TantivyModel.Proofs.Store.Channel
+import TantivyModel.Model.Store.Version
 /-!
 # C09 — Stored documents are returned exactly as they were added
 
@@ -272,6 +273,45 @@ theorem C09_stack_with_deletes_counterexample :
     getBytes Compression.none merged 0 = some [1] ∧ (liveDocs alive 0 [[1], [2]])[0]? = some [2] := by
   decide +kernel
 
+/-! ### merge and the doc store version (known finding `C09:merge-v1-docstore-date`)
+
+`C09_merge_store` / `C09_merge_mapped` show that a merge carries the *bytes* of every live document
+over unchanged. What `StoreReader::get` returns is those bytes decoded under the version in the
+store's footer (`getDocV`). The merged store always carries the current version, the sources need
+not: `write_storable_fields` has no guard on `doc_store_version`.
+
+Full statement (false, see the counterexample):
+  for every source store version `v` and document bytes `b`:
+    `deserializeDocV v b = deserializeDocV Gen.DOC_STORE_VERSION b`
+i.e. "a document is returned after the merge exactly as before it". -/
+
+/-- hypothesis the code does not enforce: the source store has the current format version -/
+def SameVersion (v : Nat) : Prop := v = Gen.DOC_STORE_VERSION
+
+/-- under `SameVersion` the merged store returns every document as the source did -/
+theorem C09_merge_returns_same_doc_partial (v : Nat) (h : SameVersion v) (b : Bytes) :
+    deserializeDocV v b = deserializeDocV Gen.DOC_STORE_VERSION b := by
+  rw [h]
+
+/-- without it: a version-1 store (dates in microseconds) merged into a current store returns
+another date for the same bytes -/
+theorem C09_merge_v1_date_counterexample :
+    ∃ (b : Bytes), ¬ SameVersion 1 ∧
+      deserializeDocV 1 b = some [(3, .date 1700000000000000000)] ∧
+      deserializeDocV Gen.DOC_STORE_VERSION b = some [(3, .date 1700000000000000)] := by
+  refine ⟨encStoredDoc [(3, .date 1700000000000000)], by unfold SameVersion; decide, ?_, ?_⟩
+  · simp only [deserializeDocV]
+    rw [show encStoredDoc [(3, .date 1700000000000000)] = encStoredDoc [(3, .date 1700000000000000)] ++ [] by simp,
+      deserialize_encStoredDoc]
+    simp only [Option.map_some, List.map_cons, List.map_nil, viewValue, readDate, if_true]
+    have : (1700000000000000 : BitVec 64) * 1000 = 1700000000000000000 := by decide
+    rw [this]
+  · simp only [deserializeDocV]
+    rw [show encStoredDoc [(3, .date 1700000000000000)] = encStoredDoc [(3, .date 1700000000000000)] ++ [] by simp,
+      deserialize_encStoredDoc]
+    have hv : ¬ (Gen.DOC_STORE_VERSION = 1) := by decide
+    simp only [Option.map_some, List.map_cons, List.map_nil, viewValue, readDate, hv, if_false]
+
 /-! ### non-vacuity -/
 
 example : ∃ C, GoodCompression C :=
@@ -327,5 +367,7 @@ example : runChan (fun (s : List Nat) (m : Nat) => s ++ [m]) 3
 
 /-- a mapping interleaving two segments -/
 example : pickDocs [[[1], [2]], [[3]]] [1, 0, 0] = some [[3], [1], [2]] := by decide
+
+example : SameVersion 2 := by unfold SameVersion; decide
 
 end TantivyModel.C09
